@@ -16,7 +16,7 @@
 #define EXT2 "/vmem/c14_b.ext"
 #define NEWX "/vmem/c14_new.ext"
 
-static int32 fid, gr, ri, an, ann, sd, sds0, sds1, sdsx, sdsc, vs, vg, aid, aidl, aidx;
+static int32 fid, gr, ri, ricr, an, ann, sd, sds0, sds1, sdsx, sdsc, vs, vg, aid, aidl, aidx;
 static int32 g_vsref, g_vgref;
 static uint64_t g_hm, g_he1, g_he2;
 static uint64_t g_h0;     /* hash of all files right after the corpus was closed */
@@ -97,6 +97,16 @@ build_corpus(void)
     ANend(A);
     if (Hclose(f) == FAIL)
         return -1;
+    {
+        /* an old-style run-length compressed raster (written by the DFR8 interface): GR reads and writes it through a
+           driver of its own */
+        uint8 r8[12];
+        for (int i = 0; i < 12; i++)
+            r8[i] = (uint8)(40 + i / 3);
+        DFR8restart();
+        if (DFR8addimage(PATH, r8, 4, 3, COMP_RLE) == FAIL)
+            return -1;
+    }
     int32 S = SDstart(PATH, DFACC_RDWR);
     int32 sdim[2] = {3, 2}, sst[2] = {0, 0};
     int16 sv[8] = {1, 2, 3, 4, 5, 6, 7, 8};
@@ -235,6 +245,20 @@ open_readonly(void)
     vg  = Vattach(fid, g_vgref, "r");
     gr  = GRstart(fid);
     ri  = GRselect(gr, 0);
+    {
+        /* the 4x3 image is the old-style compressed one */
+        int32 n_img = 0, n_at = 0;
+        GRfileinfo(gr, &n_img, &n_at);
+        ricr = FAIL;
+        for (int i = 0; i < n_img && ricr == FAIL; i++) {
+            int32 r = GRselect(gr, i), nc, nt, il, dm[2], na;
+            char  nm[80];
+            if (r != FAIL && GRgetiminfo(r, nm, &nc, &nt, &il, dm, &na) != FAIL && dm[0] == 4 && dm[1] == 3)
+                ricr = r;
+            else if (r != FAIL && r != ri)
+                GRendaccess(r);
+        }
+    }
     an  = ANstart(fid);
     ann = ANselect(an, 0, AN_FILE_LABEL);
     sd  = SDstart(PATH, DFACC_READ);
@@ -242,7 +266,7 @@ open_readonly(void)
     sds1 = SDselect(sd, SDnametoindex(sd, "unl"));
     sdsx = SDselect(sd, SDnametoindex(sd, "extern"));
     sdsc = SDselect(sd, SDnametoindex(sd, "chunked"));
-    return (aid == FAIL || vs == FAIL || vg == FAIL || ri == FAIL || ann == FAIL || sds0 == FAIL || sds1 == FAIL || sdsx == FAIL) ? -1 : 0;
+    return (aid == FAIL || vs == FAIL || vg == FAIL || ri == FAIL || ricr == FAIL || ann == FAIL || sds0 == FAIL || sds1 == FAIL || sdsx == FAIL) ? -1 : 0;
 }
 
 /* ------------------------------------------------------------------ the alphabet */
@@ -250,7 +274,7 @@ open_readonly(void)
 static uint8        B[4096];
 static int32        i32[8];
 static const int16  W16[8] = {91, 92, 93, 94, 95, 96, 97, 98};
-static int32        ST[2] = {0, 0}, CN[2] = {1, 2}, D2[2] = {2, 2};
+static int32        ST[2] = {0, 0}, CN[2] = {1, 2}, D2[2] = {2, 2}, D43[2] = {4, 3};
 static HDF_CHUNK_DEF CD;
 static comp_info     CI;
 static model_info    MI;
@@ -359,6 +383,7 @@ terminal(void)
     Vdetach(vg);
     Vend(fid);
     GRendaccess(ri);
+    GRendaccess(ricr);
     GRend(gr);
     ANendaccess(ann);
     ANend(an);
